@@ -207,6 +207,7 @@ pub struct LinkState {
     forget_done: bool,
     pub first_fault_ns: Option<u64>,
     pub last_rx_ns: HashMap<IpAddr, u64>,
+    pub last_deliver_ns: u64,
     ring: [VecDeque<Sample>; 2],
     pub stats: LinkStats,
     decode: bool,
@@ -263,6 +264,7 @@ impl LinkState {
             forget_done: false,
             first_fault_ns: None,
             last_rx_ns: HashMap::new(),
+            last_deliver_ns: 0,
             ring: [VecDeque::new(), VecDeque::new()],
             stats: LinkStats::default(),
             decode: true,
@@ -685,10 +687,11 @@ impl LinkState {
         if self.closed {
             return false;
         }
+        let t = now_ns();
+        self.last_deliver_ns = t;
         if rec == usize::MAX {
             return true;
         }
-        let t = now_ns();
         let (dir, ord, dst, label, kind, flow, equiv, known_id) = {
             let r = &mut self.log[rec];
             r.t_deliver_ns = t;
